@@ -481,6 +481,12 @@ func vtSearch(c *runCtx, p *vtPool, s vtSpec) vtStats {
 		if !expand && len(next) == 0 && !st.Exhaustive {
 			c.capHit(fmt.Sprintf("[%s] depth cap %d reached with enabled events left", s.Name, s.MaxDepth))
 		}
+		if c.violationCount() > 300 {
+			c.capHit(fmt.Sprintf("[%s] search stopped at depth %d after more than 300 violating cases", s.Name, depth))
+			st.Exhaustive = false
+
+			break
+		}
 		if s.MaxStates > 0 && st.States > s.MaxStates {
 			c.capHit(fmt.Sprintf("[%s] state cap %d reached at depth %d", s.Name, s.MaxStates, depth))
 			st.Exhaustive = false
